@@ -241,3 +241,37 @@ func ValUniverse() []Val {
 		VH(Entry{VA(VI(1)), VI(1)}), VH(Entry{VF(1.5), VS("a")}))
 	return out
 }
+
+// Positional is the exhaustive universe of the positional rules (Tuple / Array against each other): declared types
+// shorter than, equal to and LONGER than the maximal size (a declared type at a position no instance can have
+// describes nothing), untyped tuples with an explicit size, arrays that cannot fill every declared position.
+// large = the 96-type universe (its cube has 884 736 members), otherwise a 42-type subset.
+func Positional(large bool) []Ty {
+	i09, str, anyT := Int(0, 9), Atom("str"), Atom("any")
+	lists := [][]Ty{{}, {i09}, {anyT}, {i09, str}, {i09, anyT}}
+	sizes := []rng{{0, 0}, {0, 1}, {1, 1}, {1, 2}, {0, MaxI}}
+	arrSizes := []rng{{0, 0}, {0, 1}, {1, 1}, {1, 2}}
+	if large {
+		lists = append(lists, []Ty{str}, []Ty{anyT, i09}, []Ty{i09, i09})
+		sizes = append(sizes, rng{0, 2}, rng{2, 2}, rng{1, MaxI})
+		arrSizes = sizes
+	}
+	out := []Ty{}
+	for _, l := range lists {
+		out = append(out, Tup(l))
+		for _, r := range sizes {
+			out = append(out, TupSz(l, r.lo, r.hi))
+		}
+	}
+	for _, e := range []Ty{i09, str, anyT} {
+		for _, r := range arrSizes {
+			out = append(out, Arr(e, r.lo, r.hi))
+		}
+	}
+	return out
+}
+
+// PositionalVals are the arrays that tell the positional types apart.
+func PositionalVals() []Val {
+	return []Val{VA(), VA(VI(1)), VA(VS("a")), VA(VI(1), VS("a")), VA(VI(1), VI(1)), VA(VS("a"), VI(1)), VA(VI(1), VS("a"), VS("b")), VA(VUndef)}
+}
